@@ -186,6 +186,106 @@ def count_zero_rule(ctx, R, L, sem):
                         R.ok(inst, nontrivial=(len(R.nontrivial) < 200), sample='%s %d-bit by %s = %#x: nothing changes' % (name, width, 'imm8' if as_imm else 'cl', cnt))
 
 
+ARITH_EVALUATED = ('add', 'adc', 'sub', 'sbb', 'cmp', 'l_cmp', 'neg', 'inc', 'dec', 'xadd', 'cmpxchg')
+
+
+def arith_value_rule(ctx, R, L, sem):
+    """The integer arithmetic instructions lifted on register operands and evaluated on boundary values: what the flags are computed from is decided by their values,
+    whatever helper receives which argument (complements the call-site clause of D2; AF is excluded: known finding af:helper:arity:1)."""
+    from ..lifter import TId, TSlice
+    I = L.I
+    ebx, ecx, eax = TId('ebx', 32, is_reg=True), TId('ecx', 32, is_reg=True), TId('eax', 32, is_reg=True)
+
+    def parity(v):
+        return 1 - (bin(v & 0xFF).count('1') & 1)
+
+    def ref(name, w, a, b, cin, acc):
+        m = (1 << w) - 1
+        msb = lambda v: (v >> (w - 1)) & 1
+        out = {}
+        if name in ('add', 'adc', 'xadd', 'inc'):
+            c = cin if name == 'adc' else 0
+            if name == 'inc':
+                b = 1
+            r = (a + b + c) & m
+            out.update(res=r, cf=(a + b + c) >> w, of=int(msb(a) == msb(b) and msb(r) != msb(a)))
+            if name == 'inc':
+                del out['cf']
+        elif name in ('sub', 'sbb', 'cmp', 'dec'):
+            c = cin if name == 'sbb' else 0
+            if name == 'dec':
+                b = 1
+            r = (a - b - c) & m
+            out.update(res=r, cf=int(a < b + c), of=int(msb(a) != msb(b) and msb(r) != msb(a)))
+            if name == 'dec':
+                del out['cf']
+        elif name == 'neg':
+            r = (-a) & m
+            out.update(res=r, cf=int(a != 0), of=int(a == 1 << (w - 1)))
+        elif name == 'cmpxchg':
+            r = (acc - a) & m
+            out.update(res=r, cf=int(acc < a), of=int(msb(acc) != msb(a) and msb(r) != msb(acc)))
+        r = out['res']
+        out.update(zf=int(r == 0), nf=msb(r), pf=parity(r))
+        return out
+    for name in ('add', 'adc', 'sub', 'sbb', 'cmp', 'neg', 'inc', 'dec', 'xadd', 'cmpxchg'):
+        f = L.mnemo_func.get(name)
+        if f is None:
+            raise AnalysisError('ia32_sem.mnemo_func has no %r' % name)
+        for w in (32, 16, 8):
+            dst = ebx if w == 32 else TSlice(ebx, 0, w)
+            src = ecx if w == 32 else TSlice(ecx, 0, w)
+            m = (1 << w) - 1
+            vals = [0, 1, m, 1 << (w - 1), (1 << (w - 1)) - 1, 0x5A & m]
+            bad = None
+            n = 0
+            for a in vals:
+                for b in (vals if name not in ('neg', 'inc', 'dec') else [0]):
+                    for cin in ((0, 1) if name in ('adc', 'sbb') else (0,)):
+                        acc = (0x5A5A5A5A if a % 2 else a) & m
+                        val = {'ebx': 0xA5A50000 & ~m | a if w < 32 else a, 'ecx': 0x12340000 & ~m | b if w < 32 else b, 'eax': acc | (0x77770000 & ~m if w < 32 else 0),
+                               'cf': cin, 'pf': 0, 'af': 0, 'zf': 0, 'nf': 0, 'of': 0}
+                        args = [dst] if name in ('neg', 'inc', 'dec') else [dst, src]
+                        try:
+                            outs = lifted_effect(I, f, args, val)
+                        except DoubleWrite as e:
+                            bad = 'writes %s twice' % e
+                            break
+                        except LiftUnknown as e:
+                            raise AnalysisError('%s is outside the modelled subset: %s' % (name, e))
+                        except Refuse as e:
+                            raise AnalysisError('%s: lifted assignments outside the evaluable subset: %s' % (name, e))
+                        want = ref(name, w, a, b, cin, acc)
+                        n += 1
+                        for got in outs:
+                            g = {'zf': got['zf'], 'nf': got['nf'], 'pf': got['pf'], 'of': got['of']}
+                            if 'cf' in want:
+                                g['cf'] = got['cf']
+                            wflags = dict((k_, v_) for k_, v_ in want.items() if k_ != 'res')
+                            if name == 'cmp':
+                                res_ok = got['ebx'] == val['ebx']
+                            elif name == 'cmpxchg':
+                                res_ok = (got['ebx'] & m) == (b if acc == a else a) and (got['eax'] & m) == (acc if acc == a else a)
+                            elif name == 'xadd':
+                                res_ok = (got['ebx'] & m) == want['res'] and (got['ecx'] & m) == a
+                            else:
+                                res_ok = (got['ebx'] & m) == want['res'] and (got['ebx'] & ~m) == (val['ebx'] & ~m)
+                            if (g != wflags or not res_ok) and bad is None:
+                                diff = sorted(k_ for k_ in wflags if g.get(k_) != wflags[k_])
+                                bad = 'with operands %#x, %#x%s (%d bits): %s' % (a, b, (', cf = %d' % cin) if name in ('adc', 'sbb') else '', w,
+                                                                                 ('the result is wrong' if not res_ok else 'flags %s are %s, IA-32: %s' % (
+                                                                                     ', '.join(diff), ', '.join(str(g.get(k_)) for k_ in diff), ', '.join(str(wflags[k_]) for k_ in diff))))
+                    if bad:
+                        break
+                if bad:
+                    break
+            inst = 'arith:%s:%d' % (name, w)
+            if bad:
+                R.violation(inst, 'arith:%s:%s' % (name, 'flags' if 'flags' in bad else 'result' if 'result' in bad else 'double-write'), '%s %s' % (name, bad), where(sem, f.node))
+            else:
+                R.ok(inst, sample='%s at %d bits: result and CF/OF/ZF/SF/PF as IA-32 defines them on %d operand vectors' % (name, w, n))
+
+
 def same_register_parts_rule(ctx, R, L, sem):
     """Two-operand instructions that write both operands (xchg, xadd) on two parts of one register (al, ah)."""
     from ..lifter import TId, TSlice
@@ -765,6 +865,11 @@ def run(ctx, report):
                             why = 'operand argument %s is neither an instruction operand nor a single constant' % arg.id
                 if good:
                     R2.ok(inst, sample='%s: %s with %s = %s' % (fname, norm(n), u(c), norm(cdef[0])[:70]))
+                elif fname in ARITH_EVALUATED and why.startswith('operand argument'):
+                    # where the operand comes from could not be traced through the locals of the function; what the flags of this instruction are computed
+                    # from is decided on their values by D17
+                    R2.ok(inst, nontrivial=False)
+                    R2.note('%s: %s -- %s (not traced; the flags of %s are decided by evaluation, D17)' % (fname, norm(n), why, fname))
                 else:
                     R2.violation(inst, 'callsite:%s:%s' % (fname, norm(n)), '%s: %s -- %s' % (fname, norm(n), why), where(sem, n))
 
@@ -1045,6 +1150,9 @@ def run(ctx, report):
     # ------------------------------------------------------------------ D10 / D11
     R10 = report.rule('C04.D10', 'a shift or rotate whose count, masked to 5 bits, is 0 changes neither the operand nor any flag (lifted assignments evaluated)', floor=200)
     count_zero_rule(ctx, R10, L, sem)
+    R17 = report.rule('C04.D17', 'add / adc / sub / sbb / cmp / neg / inc / dec / xadd / cmpxchg: result, CF, OF, ZF, SF and PF of the lifted assignments equal the IA-32 definition on boundary '
+                      'operands x carry-in at 8, 16 and 32 bits (lifted assignments evaluated)', floor=25)
+    arith_value_rule(ctx, R17, L, sem)
     R12 = report.rule('C04.D12', 'shifts and rotates: result, CF, OF (count 1) and ZF/SF/PF of the lifted assignments equal the IA-32 definition on boundary operands x counts', floor=25)
     shift_value_rule(ctx, R12, L, sem)
     R13 = report.rule('C04.D13', 'bt/bts/btr/btc on memory: a register bit offset is signed and selects the cell, an immediate offset stays inside the operand (lifted carry evaluated)', floor=16)
@@ -1144,7 +1252,7 @@ MUTANTS = [
      "    e.append(ExprAff(of, ExprInt32(0)))\n    return e\n\ndef update_flag_arith", 'C04.D3'),
     ('add-znp-operand', 'miasmx/arch/ia32_sem.py', "def add(info, a, b):\n    e= []\n    c = ExprOp('+', a, b)\n    e+=update_flag_arith(c)", "def add(info, a, b):\n    e= []\n    c = ExprOp('+', a, b)\n    e+=update_flag_arith(a)", 'C04.D3'),
     ('adc-rebinds-b', 'miasmx/arch/ia32_sem.py', "    c = ExprOp('+',\n               a,\n               ExprOp('+',\n                      b,\n                      ExprCompose([(ExprInt32(0), 1, a.get_size()),\n                                   (cf, 0, 1)])))\n    e+=update_flag_arith(c)\n    e+=update_flag_af(c)\n    e+=update_flag_add(a, b, c)",
-     "    b = ExprOp('+',\n               b,\n               ExprCompose([(ExprInt32(0), 1, a.get_size()),\n                            (cf, 0, 1)]))\n    c = ExprOp('+', a, b)\n    e+=update_flag_arith(c)\n    e+=update_flag_af(c)\n    e+=update_flag_add(a, b, c)", 'C04.D2'),
+     "    b = ExprOp('+',\n               b,\n               ExprCompose([(ExprInt32(0), 1, a.get_size()),\n                            (cf, 0, 1)]))\n    c = ExprOp('+', a, b)\n    e+=update_flag_arith(c)\n    e+=update_flag_af(c)\n    e+=update_flag_add(a, b, c)", 'C04.D17'),
     ('cwd-swaps', 'miasmx/arch/ia32_sem.py', "def cwd(info):\n    # dx:ax = sign extension of ax (cdq handles both operand sizes)\n    return cdq(info)\n", "def cwd(info):\n    e = []\n    e.append(ExprAff(eax, edx))\n    e.append(ExprAff(edx, eax))\n    return e\n", 'C04.D6'),
     ('cmps-reversed', 'miasmx/arch/ia32_sem.py', "    e+=l_cmp(info, b, a)\n    off = a.get_size()/8", "    e+=l_cmp(info, a, b)\n    off = a.get_size()/8", 'C04.D3'),
     ('add-of-formula', 'miasmx/arch/ia32_sem.py', "    return ExprAff(of, get_op_msb(((a ^ c) & (~(a ^ b)))))", "    return ExprAff(of, get_op_msb(((a ^ c) & (a ^ b))))", 'C04.D2'),
